@@ -3,4 +3,6 @@ from . import _sc
 
 
 def main(tier):
-    return _sc.run("C01", tier, ["c01_"], act_filter=_sc.is_cow, quick_pairs=10000)
+    # + crash points: sampled copy-on-write calls aborted by an exception injected at their executed library lines
+    return _sc.run("C01", tier, ["c01_"], act_filter=_sc.is_cow, quick_pairs=9000, fault_pairs=(6, 40), fault_stride=(9, 1),
+                   assumptions=["an injected fault is a Python exception raised at a line boundary of library code (sys.settrace); one-time lazy initialisation is warmed up first"])
